@@ -72,6 +72,24 @@ class Ctx:
             if "/" in k and k.split("/")[0] not in plain:
                 self.nested_only.add(k.split("/")[0])
         self.raw = d
+        # application dependencies as the package document gives them, per platform, and the platform that is loaded
+        self.platform = d.get("platform", "default")
+        self.appdeps_doc = {}
+        if d.get("docdefault") or d.get("dochas") or self.platform != "default":
+            self.appdeps_doc["default"] = sorted(R(x) for x in d.get("docdefault", []))
+        if d.get("dochas"):
+            self.appdeps_doc["other"] = sorted(R(x) for x in d.get("docother", []))
+        if not d.get("docdefault") and "default" in self.appdeps_doc and self.platform == "default" and not d.get("dochas"):
+            del self.appdeps_doc["default"]
+        self.platforms = ["default", "other"] if (self.platform != "default" or "other" in self.appdeps_doc) else None
+
+    def document(self, components):
+        doc = {"components": components}
+        if self.appdeps_doc:
+            doc["application-dependencies"] = {k: list(v) for k, v in self.appdeps_doc.items()}
+        if self.platforms:
+            doc["platforms"] = list(self.platforms)
+        return doc
 
 
 class Guarded:
@@ -162,6 +180,7 @@ class Runner:
         self.classes = {}
         self.reasons = {}
         self.manifest_tlf = {}
+        self.real_deps = {}
         self.failures = {}          # key -> [count, [(what, replay), ...]]
         self.e2e_methods = ("ref", "copy")
 
@@ -211,6 +230,19 @@ class Runner:
             self.fail("manifest:nested-key-top-level-folder" if nested else "manifest:top-level-folders",
                       "Manifest(%s).top_level_folders == %s, specification (left-most folders of the keys) %s" % (
                           ctx.keys, got, ctx.toplevel), {"kind": "ctx", "ctx": ctx.raw})
+        # the application dependencies that hold for the loaded platform, through the real FlowIRConcrete
+        try:
+            conc = FL.FlowIRConcrete(ctx.document([{"name": "only", "stage": 0, "command": {"executable": "echo"}}]), ctx.platform, {})
+            real = list(conc.get_application_dependencies())
+        except Exception as e:
+            real = ["<raised %r>" % e]
+        self.real_deps[ctx.id] = real
+        self.chk.evaluated(("appdeps", ctx.platform, json.dumps(ctx.appdeps_doc, sort_keys=True)))
+        if sorted(real) != ctx.deps:
+            self.fail("appdep:platform-layering",
+                      "package with application-dependencies %s loaded for platform %r: get_application_dependencies() == %s, "
+                      "specification (the platform's own entry, even when empty; the default's when it has none) %s" % (
+                          ctx.appdeps_doc, ctx.platform, sorted(real), ctx.deps), {"kind": "ctx", "ctx": ctx.raw})
         for d, nm in sorted(ctx.depnames.items()):
             g = F.application_dependency_to_name(d)
             self.chk.evaluated(("dep", d))
@@ -405,21 +437,25 @@ class Runner:
         #      (Manifest.top_level_folders -> ParseDataReferenceFull / is_datareference_to_component / expand_component_references)
         if cls != "unspecified":
             rtlf = list(self.manifest_tlf[ctx.id])
+            rdeps = list(self.real_deps[ctx.id])        # ... and the application dependencies the real FlowIRConcrete reports
             root = None
             if sorted(set(rtlf)) != ctx.toplevel:
                 root = "manifest:nested-key-top-level-folder" if any("/" in k for k in ctx.keys) else "manifest:top-level-folders"
+            elif sorted(rdeps) != ctx.deps:
+                root = "appdep:platform-layering"
             try:
-                f2 = F.ParseDataReferenceFull(s, n, deps, rtlf)[0]
-                c2 = F.is_datareference_to_component(s, rtlf + sorted(set(ctx.depnames.values())))
-                e2 = F.expand_component_references([s], n, ctx.known, deps, rtlf)[0]
+                f2 = F.ParseDataReferenceFull(s, n, rdeps, rtlf)[0]
+                c2 = F.is_datareference_to_component(s, rtlf + sorted(set(F.application_dependency_to_name(x) for x in rdeps)))
+                e2 = F.expand_component_references([s], n, ctx.known, rdeps, rtlf)[0]
                 if cls == "direct":
                     ok = f2 is None and c2 is False and e2 == s
                 else:
                     ok = f2 == resolved and c2 is True and e2 == R(case["absolute"])
                 if not ok:
                     self.bad(case, ctx, "classify-%s-with-manifest-folders" % cls,
-                             "with top_level_folders=Manifest(%s).top_level_folders=%s the %s reference gives ParseDataReferenceFull stage %r, "
-                             "is_datareference_to_component %r, expand_component_references %r" % (ctx.keys, rtlf, cls, f2, c2, e2), root=root)
+                             "with top_level_folders=Manifest(%s).top_level_folders=%s and application dependencies %s (platform %r) the %s "
+                             "reference gives ParseDataReferenceFull stage %r, is_datareference_to_component %r, "
+                             "expand_component_references %r" % (ctx.keys, rtlf, rdeps, ctx.platform, cls, f2, c2, e2), root=root)
             except Exception as e:
                 self.bad(case, ctx, "classify-%s-with-manifest-folders" % cls, "raised %r" % e, root=root)
 
@@ -455,11 +491,9 @@ class Runner:
         if cls == "component":
             comps.append(comp(prod, resolved))
         comps.append(comp("consumer-of-it", n, [s]))
-        doc = {"components": comps}
-        if ctx.deps:
-            doc["application-dependencies"] = {"default": list(ctx.deps)}
+        doc = ctx.document(comps)
         try:
-            conc = FL.FlowIRConcrete(doc, "default", {})
+            conc = FL.FlowIRConcrete(doc, ctx.platform, {})
             errs = conc.validate(top_level_folders=self.manifest_tlf[ctx.id])
             self.guard.after("FlowIRConcrete.validate")
         except Exception as e:
@@ -496,7 +530,7 @@ def run(tier):
     # families of constants: (names, files, methods, contexts)
     # the last family of each tier is the two-step family: another package (context 4 / 8 ...) was inspected first
     fams = [("NamesFull", "FilesSmall", "MethodsSmall", "ContextsQuick", (0,)),
-            ("NamesFull", "FilesTwo", "MethodsOne", "ContextsQuick", (4, 8))]
+            ("NamesFull", "FilesTwo", "MethodsOne", "ContextsQuick", (4,))]
     if thorough:
         fams = [("NamesFull", "FilesFull", "MethodsAll", "ContextsQuick", (0,)),
                 ("NamesFull", "FilesThree", "MethodsOne", "ContextsFull", (0,)),
@@ -557,6 +591,7 @@ def run(tier):
         if runner is None:
             runner = Runner(chk)
         runner.manifest_tlf = {}
+        runner.real_deps = {}
         for cid in sorted(ctxs):
             runner.check_context(ctxs[cid])
         runner.e2e_methods = ("ref", "copy") if methods != "MethodsOne" else ("ref", "ref")
